@@ -557,6 +557,13 @@ fn process_request_obj(request: &Request, dbs: &Arc<Databases>, client: &mut Cli
             opp_id,
         } => {
             log::debug!("ack send_message_to_secoundary {} {}", opp_id, request_str);
+            // An envelope carries one command: envelopes nested in envelopes recurse once per level
+            // and a few thousand of them in one line exhaust the stack of the connection thread
+            if request_str.starts_with("rp ") {
+                return Response::Error {
+                    msg: String::from("Invalid replication request str"),
+                };
+            }
             match client
                 .sender
                 .clone()
